@@ -100,7 +100,7 @@ func execTree(r *rand.Rand, e *TreeEv) {
 	if e.Tree == nil {
 		e.Tree = []TNode{}
 	}
-	e.ArgsSame = equalPaths(s0, e.Subj) && equalPaths(c0, e.Clip)
+	e.ArgsSame = equalPaths(s0, e.Subj) && equalPaths(c0, e.Clip) && argsUnchanged()
 	polys := Paths{}
 	for _, n := range e.Tree {
 		polys = append(polys, n.Poly)
@@ -308,7 +308,7 @@ func execOpen(r *rand.Rand, e *OpenEv) {
 			e.SolClosed = nz(fromPaths64(s))
 		}
 	})
-	e.ArgsSame = equalPaths(s0, e.Subj) && equalPaths(o0, e.Open) && equalPaths(c0, e.Clip)
+	e.ArgsSame = equalPaths(s0, e.Subj) && equalPaths(o0, e.Open) && equalPaths(c0, e.Clip) && argsUnchanged()
 	// everything below in result units
 	subj, open, clip := scalePaths(e.Subj, e.K), scalePaths(e.Open, e.K), scalePaths(e.Clip, e.K)
 	farIn := func(p Pt) bool { return farClosed(p, subj, 8) && farClosed(p, clip, 8) }
@@ -383,6 +383,36 @@ func driveOpen(r *rand.Rand, w *writer, n int) {
 		}
 		clip = genClosedSet(r, []int{0, 1, 7, 6, 2}[r.Intn(5)])
 		open := genOpenSet(r)
+		if r.Intn(3) == 0 {
+			// an end of a line that is a horizontal (vertical) stretch of two or more segments: an extra collinear
+			// vertex, or the line doubling back on itself, stopping anywhere (inside or short of the clip region)
+			k := r.Intn(len(open))
+			q := open[k]
+			tail := func(p Pt) Path {
+				d1, d2 := int64(1+r.Intn(6))*8, int64(1+r.Intn(6))*8
+				if r.Intn(2) == 0 {
+					d1 = -d1
+				}
+				if r.Intn(3) == 0 {
+					d2 = -d2 / 2 // doubling back
+				} else if d1 < 0 {
+					d2 = -d2
+				}
+				if r.Intn(4) == 0 { // vertical
+					return Path{{p[0], p[1] + d1}, {p[0], p[1] + d1 + d2}}
+				}
+				return Path{{p[0] + d1, p[1]}, {p[0] + d1 + d2, p[1]}}
+			}
+			if len(q) > 0 {
+				if r.Intn(2) == 0 {
+					q = append(q, tail(q[len(q)-1])...)
+				} else {
+					t := tail(q[0])
+					q = append(Path{t[1], t[0]}, q...)
+				}
+				open[k] = q
+			}
+		}
 		if r.Intn(3) == 0 { // start / end on clip vertices
 			if len(clip) > 0 && len(clip[0]) > 0 && len(open) > 0 && len(open[0]) > 0 {
 				open[0][0] = clip[0][r.Intn(len(clip[0]))]
